@@ -342,7 +342,7 @@ def load_model(repo: str | os.PathLike = "/repo", normalize: bool = True) -> Mod
         for p, text, tree in parsed:
             nz.module(p.stem, tree)
         nz.fix_keywords({p.stem: tree for p, _, tree in parsed})
-        model.normalisation = {"renamed": nz.renamed, "temp_returns_inlined": nz.inlined, "log_statements_dropped": nz.log_stmts, "negated_ifs_unflipped": nz.unflipped}
+        model.normalisation = {"renamed": nz.renamed, "temp_returns_inlined": nz.inlined, "log_statements_dropped": nz.log_stmts, "negated_ifs_unflipped": nz.unflipped, "annotated_local_assignments_made_plain": nz.annotated, "new_single_use_temporaries_inlined": nz.temps}
     for p, text, tree in parsed:
         mod = Module(p.stem, p, str(p.relative_to(repo)), text, tree)
         _Indexer(mod).visit(tree)
